@@ -5,6 +5,7 @@
 #include <signal.h>
 #include <stdio.h>
 #include <string.h>
+#include <stdlib.h>
 #include <sys/wait.h>
 #include <algorithm>
 #include <functional>
@@ -690,6 +691,14 @@ void World::ComputeExpectedRun(const InvPlan& p) {
   }
   expected_run = run;
   expected_valid = true;
+  if (getenv("SIM_DEBUG_EXPECTED")) {
+    std::string m = "[" + label + "] expected:";
+    for (int id : run) m += " " + S(id);
+    m += " | affected:";
+    for (int id : affected) m += " " + S(id);
+    for (int id : closure) { m += " | in(" + S(id) + ")="; for (auto& in : EffectiveInputs(id)) m += in + ","; }
+    HPrintf("%s\n", m.c_str());
+  }
 }
 
 void World::UpdateCleanState(const InvRecord& r) {
@@ -726,8 +735,19 @@ void World::CheckMinimality(const InvRecord& r) {
     return w;
   };
   for (int id : ran)
-    if (!expected_run.count(id))
+    if (!expected_run.count(id)) {
+      // K20: restat that comes from a dyndep file is unknown while that file is pending
+      const Stmt& xs = sc.stmts[id];
+      const DyndepEntry* xe = sc.DyndepFor(id);
+      const DyndepFile* xd = xs.dyndep.empty() ? nullptr : sc.FindDyndep(xs.dyndep);
+      bool producer_dirty = false;
+      if (xd && xd->producer >= 0) { if (ran.count(xd->producer)) producer_dirty = true; for (int q : StmtClosure(xd->producer)) if (ran.count(q)) producer_dirty = true; }
+      if (xe && xe->restat && producer_dirty) {
+        Report("C03", "extra_command_pending_restat", "statement " + S(id) + " ran although nothing it reads was rewritten: its restat attribute comes from dyndep file " + xs.dyndep + ", which was pending because its producer had to run");
+        continue;
+      }
       Report("C03", "extra_command", "statement " + S(id) + " ran although neither its inputs, command line, recorded dependencies nor outputs changed and nothing it reads was rewritten" + why(id));
+    }
   if (exact)
     for (int id : expected_run)
       if (!ran.count(id))
